@@ -128,7 +128,7 @@ known("C04", r"^asm_expr\|(equ|fcb|fdb)/[^|]*\|C04:div-by-zero-rejected\|(equ|fc
       "division by zero in an expression is not rejected with a diagnostic", {"asm": ["K EQU 0", " LDA #8/K"]}, also=("C13",))
 known("C04", r"^asm_expr\|(extind|idx|idx16)/[^|]*label[^|]*\|C04:accepted\|[^|]*:rejected:TranslationError",
       "label +- constant inside [..] or as an index offset is rejected", {"asm": ["L NOP", " LDA [L+2]"]})
-known("C13", r"^asm_expr\|[^|]*label-(before|after)[^|]*\|C13:no-internal-error\|[^|]*:escape:(ZeroDivisionError|IndexError|ValueTypeError)$",
+known("C13", r"^asm_expr\|([^|]*label-(before|after)[^|]*\|C13:no-internal-error\|[^|]*:escape:ValueTypeError|(idx|idx16)/label-(before|after)\|C13:no-internal-error\|[^|]*:escape:IndexError|(imm8|imm16|mem|mem16|jmp)/(label-(before|after)/(num:small|equ-small)|num:small/label-before)\|C13:no-internal-error\|[^|]*:escape:ZeroDivisionError)$",
       "internal errors escape from operands that contain an ADDRESS LABEL (they are evaluated after symbol resolution, outside its "
       "try block): L/0 -> ZeroDivisionError, label as index offset -> IndexError, label terms in FCB / FDB / EQU / wide results -> "
       "ValueTypeError; expressions without a label are diagnosed",
@@ -175,20 +175,34 @@ known("C05", r"^asm_data\|silent/END\|(C13:no-internal-error|C05:accepted)\|sile
 known("C13", r"^asm_forms\|[^|]*/(neg5|dec5)/\w+/equ\|C13:no-internal-error\|[^|]*:escape:(ValueTypeError:val=-1000000000\.\.-32769|AttributeError:val=65536\.\.1000000000):",
       "an EQU symbol whose value lies outside -32768..65535, used as an operand, raises ValueTypeError (below -32768) or "
       "AttributeError (above 65535) instead of a diagnostic", {"asm": ["V EQU -39001", " LDA V"]})
-known("C13", r"^asm_text\|text/\d+/(END|EQU|FCB|FDB|NAM|ORG|RMB|SETDP)\|C13:no-internal-error\|text:(END|EQU|FCB|FDB|NAM|ORG|RMB|SETDP):escape:ValueTypeError@values\.py:Value\.create_from_str<operands\.py:PseudoOperand\.__init__$",
-      "an operand text of a pseudo operation that is no value at all (empty, lone prefix, dangling operator ...) raises ValueTypeError in "
-      "PseudoOperand.__init__, which Statement.parse_line does not turn into a diagnostic", {"asm": [" ORG $"]})
-known("C13", r"^asm_text\|text/\d+/(BRA|LBRA)\|C13:no-internal-error\|text:(BRA|LBRA):escape:ValueTypeError@values\.py:Value\.create_from_str<operands\.py:RelativeOperand\.__init__$",
-      "the same for the operand of a branch (RelativeOperand.__init__)", {"asm": [" BRA #"]}, also=("C12",))
-known("C13", r"^asm_text\|text/\d+/FCC\|C13:no-internal-error\|text:FCC:escape:IndexError@statement\.py:Statement\.parse_line<statement\.py:Statement\.__init__$",
-      "FCC whose operand is empty, one character or has no closing delimiter raises IndexError in Statement.parse_line", {"asm": [" FCC #"]},
-      also=("C05",))
-known("C13", r"^asm_text\|text/\d+/(JMP|LDA|lda|LEAX)\|C13:no-internal-error\|text:(JMP|LDA|LEAX):escape:IndexError@statement\.py:Statement\.determine_pcr_relative_sizes<program\.py:Program\.translate_statements$",
-      "an address label as constant index offset with a prefix (#T,X  <T,X) raises IndexError in the size pass (same root as LDA L,X)",
-      {"asm": ["T NOP", " LDA #T,X"]})
-known("C13", r"^asm_text\|text/\d+/INCLUDE\|C13:no-internal-error\|text:INCLUDE:escape:FileNotFoundError@source_file\.py:SourceFile\.read_assembly_contents<source_file\.py:SourceFile\.read_file$",
-      "INCLUDE of a file that does not exist escapes as FileNotFoundError (C19 known finding, reached through arbitrary operand texts)",
-      {"asm": [" INCLUDE nothere.asm"]}, also=("C19",))
+# asm_text: exact failing inputs per mnemonic and root cause (known_text_inputs.json, tools/mktextknown.py)
+import re as _re
+_TXT = json.load(open(os.path.join(ROOT, "known_text_inputs.json")))
+_TXT_WHAT = [
+    (("END", "EQU", "FCB", "FDB", "NAM", "ORG", "RMB", "SETDP"), "ValueTypeError@Program.parse",
+     "an operand text of a pseudo operation that is no value at all (empty, lone prefix, dangling operator ...) raises ValueTypeError "
+     "while the statement is parsed (PseudoOperand.__init__), which Statement.parse_line does not turn into a diagnostic", [" ORG $"], ()),
+    (("BRA", "LBRA"), "ValueTypeError@Program.parse", "the same for the operand of a branch (RelativeOperand.__init__)", [" BRA #"], ("C12",)),
+    (("FCC",), "IndexError@Program.parse",
+     "FCC whose operand is empty, one character or has no closing delimiter raises IndexError in Statement.parse_line", [" FCC #"], ("C05",)),
+    (("JMP", "LDA", "lda", "LEAX"), "IndexError@Program.translate_statements",
+     "an address label as constant index offset with a prefix (#T,X  <T,X) raises IndexError in the size pass (same root as LDA L,X)",
+     ["T NOP", " LDA #T,X"], ()),
+    (("INCLUDE",), "FileNotFoundError@Program.translate_statements",
+     "INCLUDE of a file that does not exist escapes as FileNotFoundError (C19 known finding, reached through arbitrary operand texts)",
+     [" INCLUDE nothere.asm"], ("C19",)),
+]
+for mns, exc, what, asm, also in _TXT_WHAT:
+    alts = []
+    for mn in mns:
+        d = _TXT.get("%s|escape|%s" % (mn, exc))
+        if not d:
+            continue
+        per = "|".join("%s:O(%s)" % (li, "|".join(str(k) for k in ks)) for li, ks in sorted(d.items()))
+        alts.append("%s:escape:%s:(%s)" % (_re.escape(mn), _re.escape(exc), per))
+    if alts:
+        known("C13", r"^asm_text\|text/\d+/\w+\|C13:no-internal-error#\d+\|text:(%s)$" % "|".join(alts), what, {"asm": asm}, also=also)
+
 known("C13", r"^asm_layout\|abs/LDA,X/[^|]*\|C13:no-internal-error\|abs/LDA,X:\w+:\w+:escape:IndexError",
       "a label used as constant index offset (LDA L,X) raises IndexError in fix_addresses", {"asm": ["L NOP", " LDA L,X"]}, also=("C01", "C04"))
 known("C13", r"^asm_layout\|placement/[\w-]+\|C13:no-internal-error\|placement/[\w-]+:escape:ValueTypeError",
